@@ -28,31 +28,37 @@ def truth(y):
 
 def step(quals, cur, y, rest_matches, neutral=True):
     """-> (vote, new_cur). vote True = positive."""
+    v, n, _ = step3(quals, cur, y, rest_matches, neutral)
+    return v, n
+
+
+def step3(quals, cur, y, rest_matches, neutral=True):
+    """-> (vote, new_cur, wrote)."""
     q = set(quals)
 
     def gate():
         if "notnone" in q and y is None:
-            return False, cur
+            return False, cur, False
         if "increase" in q and (y is None or (cur is not None and not y > cur)):
-            return False, cur
+            return False, cur, False
         if "decrease" in q and (y is None or (cur is not None and not y < cur)):
-            return False, cur
-        return True, y
+            return False, cur, False
+        return True, y, True
 
     if "onmatch" in q and not rest_matches:
-        vote, new = False, cur
+        vote, new, wrote = False, cur, False
     elif "latch" in q or "onchange" in q:
         if y != cur:
             if cur is None or "latch" not in q:
-                vote, new = gate()
+                vote, new, wrote = gate()
             else:
-                vote, new = True, cur
+                vote, new, wrote = True, cur, False
         else:
-            vote, new = (False if "onchange" in q else True), cur
+            vote, new, wrote = (False if "onchange" in q else True), cur, False
     else:
-        vote, new = gate()
+        vote, new, wrote = gate()
     if "asbool" in q and vote is True:
         vote = truth(y)
     if "nocontrib" in q:
         vote = neutral
-    return vote, new
+    return vote, new, wrote
